@@ -77,13 +77,9 @@ func scopeBlock() fam {
 	var ps []string
 	for i, pos := range positions {
 		for j, d := range defs {
-			// every position with the two plain function forms; the other forms on a rotating subset
-			if j > 1 && (i+j)%4 != 0 {
-				continue
-			}
 			p := strings.ReplaceAll(strings.ReplaceAll(pos, "%s", d.in), "OUT", d.out)
 			ps = append(ps, d.outer+p)
-			if d.outer != "" && j%3 == 0 {
+			if d.outer != "" && (i+j)%3 == 0 {
 				ps = append(ps, p) // the same without the outer binding: must not compile
 			}
 		}
@@ -144,5 +140,47 @@ func boundaryBlock() fam {
 	return fam{"boundary", ps, ins, nil}
 }
 
+// marker: sub-expressions that NAVIGATE inside every position the compiler brackets with opexpbegin/opexpend
+// ($-parameter evaluation, the source of `as`, the condition of if / and / or / select, the right-hand side of `=`,
+// key arguments of index / slice / getpath), all inside path expressions, updates and deletions: navigation done
+// in such a position must not become part of the path
+func markerBlock() fam {
+	es := []string{
+		// $-parameters
+		"def f($a): .[$a]; f(.k)", "def f($a): .b; f(.a.c)", "def f($a): .; f(.a)", "def f($a; $b): .[$a][$b]?; f(.k; .i)", "def f($a): .a | .[$a]?; f(.k)", "def f($a): if $a then .a else .b end; f(.c)", "def f($a): .a, .b; f(.[]?)", "def f(g; $a): g | .[$a]?; f(.a; .k)", "def f($a): $a; f(.a)", "def f($a): .a[$a]?; f(.i, .j)",
+		// sources of `as` (one pattern: the marker is a nop; several: expend)
+		".a as $x | .b", "(.a | .c) as $x | .b", ".k as $x | .[$x]", ".[]? as $x | .b", ".a as [$x] | .b", ".a as {c: $x} | .b", ".a as [$x] ?// $x | .b", ".k as [$x] ?// $x | .[$x]?", "(.a, .b) as $x | .c", "first(.[]?) as $x | .a", ".a.c as $x | .a | .[$x]?", ". as {k: $x} | .[$x]", ". as {k: $x, i: $y} | .a[$y]?", "(.k | ascii_downcase?) as $x | .[$x]?", ".a as $x | .b as $y | .c",
+		// conditions
+		"if .a then .b else .c end", "if .a.c then . else .c end", "if (.a | .c) then .b else .c end", "if .[]? then .a else .b end", "if . then .a else .b end", "if empty then .a else .b end", "if .a then .b elif .b then .c else .a end", "if .a then .b end", "select(.a)", "select(.a and .b)", "select(.a or .b.c?)", "if .a and .b then .c else .a end", "if (.a or .c) then .b else .c end", ".a | select(.c)", ".[]? | select(.c?)", "select(.a | not)", "if .a == .b then .a else .b end", "if (.a | length) > 0 then .a else .b end", "select(any(.[]?; . == 1))", "select(has(\"a\")?)", "if (.k as $x | .[$x]) then .a else .b end", "values", "select(.a // .b)", "select(.a | . != null)",
+		// key arguments that navigate
+		".[.k]", ".a[.i]?", ".a[.i:.j]?", ".a[.i:]?", "getpath(.p)", "getpath([.k])", ".[.k | ascii_downcase?]?", ".a[.a | length - 1]?", ".[.p[0]]?", ".[.k, .p[0]?]?", ".a[(.i, .j)]?", ".[first(.k, .p[]?)]?", ".[.k]?.c?", ".[.k // \"a\"]", ".[if .k then .k else \"a\" end]", ".[.k as $x | $x]", ".a[.i as $x | $x + 0]?", "getpath(.p | .[:1])", "getpath(.p, [.k])", ".[.[\"k\"]]",
+		// other constructs inside path expressions
+		"first(.a, .b)", "limit(1; .a, .b)", ".a // .b", ".a? // .c", "try .a catch .b", "label $l | .a, break $l", ".a | first(.c, .d)?", "reduce .a as $x (.; .b)", "reduce (.a, .b) as $x (.; .c)?", "foreach (.a, .b) as $x (.; .c; .)?", "reduce .k as $x (.; .[$x])", "[.a, .b] | .[0]", "{x: .a} | .x", ".a | recurse(.c?)", "recurse(.a?; . != null)", "..", ".. | select(type == \"number\")", "getpath([\"a\"]) | .c?", "paths as $q | getpath($q)", "to_entries[]?.value", "(.a, .b) | .c?", ".a | (.c, .d)?", "empty", "error?", ".a | first", "first(.a[]?)", "last(.a[]?)", "nth(1; .a[]?)", "until(.c? == null; .c)", "input?", "$__loc__?", ".a | if . then .c? else . end", ".a.c?, .b", "(.a | .c)?", ".[\"a\"].c?",
+	}
+	wrappers := []string{"[path(%s)]", "[%s]", "(%s) = 9", "(%s) |= 7", "del(%s)", "[paths(%s)]", "(%s) += 1", "[path(%s)] | length", "path(first(%s))", "[limit(2; path(%s))]"}
+	var ps []string
+	for i, e := range es {
+		for j, w := range wrappers {
+			if j > 1 && (i+j)%3 != 0 {
+				continue
+			}
+			ps = append(ps, strings.ReplaceAll(w, "%s", e))
+		}
+	}
+	// right-hand sides of assignments navigate in expression mode
+	ps = append(ps,
+		".a = .b", ".a = (.b | .c?)", "(.a, .b) = .c", ".a = .a.c?", ".[.k] = .i", ".a.c = .k", ".a = (.b, .c)", ".a |= .c?", ".a += .i", ".a //= .b", ".a = (.k as $x | .[$x])", ".a = (if .b then .c else .k end)", ".a = first(.b, .c)", ".a.c |= (.d? // 0)", ".[.k] |= .c?", ".a[.i]? = .j", "(.a | .c?) = .b",
+		"path(.a = .b)?", "[paths] | length", ".a = .b | .a", "[.a = (.b, .c) | .a]", ".a = (.b | .[]?)", "reduce (.a = .b) as $x (0; 1)", ".a = (.b as $x | $x)", "def f($a): .a = $a; f(.b)", "def f(g): .a = g; f(.b)", "def f(g): .a |= g; f(.c?)")
+	ins := []any{
+		map[string]any{"k": "a", "i": 0, "j": 2, "p": []any{"a", "c"}, "a": map[string]any{"c": 1, "d": nil}, "b": []any{1, 2, 3}, "c": true},
+		map[string]any{"k": "b", "i": 1, "j": 1, "p": []any{"b", 0}, "a": []any{5, 6, 7}, "b": map[string]any{"c": "x"}, "c": false},
+		map[string]any{"k": "c", "i": -1, "j": nil, "p": []any{}, "a": nil, "b": 2, "c": nil},
+		map[string]any{"a": map[string]any{"c": map[string]any{"c": nil}}, "b": nil}, []any{map[string]any{"c": 1}, map[string]any{"c": nil}}, nil,
+	}
+	return fam{"marker", ps, ins, []any{"in"}}
+}
+
 // the deterministic blocks, in the order they run
-func firstBlocks() []fam { return []fam{regressBlock(), scopeBlock(), calleeBlock(), boundaryBlock()} }
+func firstBlocks() []fam {
+	return []fam{regressBlock(), scopeBlock(), calleeBlock(), boundaryBlock(), markerBlock()}
+}
